@@ -15,10 +15,13 @@ def ttest2_stat_only(x, y, tail):
     s = np.sqrt(((n1 - 1) * np.var(x, ddof=1) + (n2 - 1)
                     * np.var(y, ddof=1)) / (n1 + n2 - 2))
     denom = s * np.sqrt(1 / n1 + 1 / n2)
-    if denom == 0 or (x[0] == y[0] and np.ptp(x) == 0 and np.ptp(y) == 0):
-        # zero variance; a connection that is identical in every subject has no
-        # defined statistic even if the means differ by rounding noise
+    if x[0] == y[0] and np.ptp(x) == 0 and np.ptp(y) == 0:
+        # a connection that is identical in every subject has no defined
+        # statistic even if the means differ by rounding noise
         return 0
+    if denom == 0:
+        # constant within both groups at different values: perfect separation
+        t, denom = t * np.inf, 1
     if tail == 'both':
         return np.abs(t / denom)
     if tail == 'left':
